@@ -228,7 +228,7 @@ class CallMixin:
             raise Unsupported("inline depth")
         self.depth += 1
         try:
-            env.cuts = {}
+            env.anchors = {}
             env.local_types = {}
             return self.run_body(fnode, env)
         finally:
@@ -473,6 +473,21 @@ class CallMixin:
         finally:
             self.spec -= 1
 
+    def sp_amap(self, node, env):
+        """amap(lambda x: e): the total map x -> e (z3 Lambda); spec only."""
+        lam = node.args[0]
+        names = [a.arg for a in lam.args.args]
+        loc = dict(env.locals)
+        c = z3.Const(self.ctx.fresh_name("m_" + names[0]), z3.IntSort())
+        loc[names[0]] = V(TInt, c)
+        e2 = env.child(loc)
+        self.spec += 1
+        try:
+            body = self.evalv(lam.body, e2)
+        finally:
+            self.spec -= 1
+        return V(TArr(TInt, body.ty), z3.Lambda([c], body.t))
+
     def sp_is_none(self, node, env):
         v = self.evalv(node.args[0], env)
         return sym.mk_bool(sym.equal(v, NONE))
@@ -607,7 +622,7 @@ class CallMixin:
     bi_bytearray = bi_bytes
 
     def bi_range(self, node, env):
-        a = [self.evalv(x, env) for x in node.args]
+        a = [self.unopt(self.evalv(x, env), node) for x in node.args]
         if len(a) == 1:
             return sym.range_mk(I(0), sym.as_int(a[0]))
         if len(a) == 2:
